@@ -4,6 +4,7 @@ import (
 	"encoding/json"
 	"math"
 	"sort"
+	"sync/atomic"
 
 	"github.com/paulmach/orb"
 	"github.com/paulmach/orb/quadtree"
@@ -58,7 +59,14 @@ func (m *qtMap) cell(v float64) int {
 	return int(v * m.div * 1024)
 }
 
-func (p *qtPtr) Point() orb.Point { return p.p }
+func (p *qtPtr) Point() orb.Point {
+	if atomic.LoadInt32(&qtPointArmed) != 0 { // C19 paused-query scenarios: see c19_gate.go
+		qtGatePoint()
+	}
+	return p.p
+}
+
+var qtPointArmed int32
 
 type qtEv struct {
 	K     string   `json:"k"`
